@@ -310,9 +310,7 @@ func VerifC13TSRouteConsts() {
 	}
 	verif.Show("duplicate", dup)
 	if pathVar && hasQuery && (verb == http.HttpMethod_HTTP_METHOD_GET || verb == http.HttpMethod_HTTP_METHOD_DELETE) {
-		verif.Expect("KF-C13-ts-server-declares-const-url-twice", dup == "")
-		verif.Reach("C13/ts/kf-url")
-		return
+		verif.Reach("C13/ts/path-and-query") // the region of the defect repaired in 8a59333
 	}
 	verif.Assert("C13/ts/no-duplicate-const-in-route", dup == "")
 	verif.Reach("C13/ts/decided")
